@@ -269,6 +269,18 @@ pub struct FaultCfg {
     pub tick_jitter_ns: u64,
 }
 
+/// The other tracer instance on the same host (`trip a b`: identifiers pid, pid+1, ...).
+#[derive(Debug, Clone, Copy, PartialEq, Eq)]
+pub struct NeighbourCfg {
+    /// Its trace identifier is this tracer's plus `id_delta` (1..).
+    pub id_delta: u16,
+    /// It traces another target (always so for UDP and TCP, whose probes do not carry the
+    /// trace identifier).
+    pub other_target: bool,
+    /// It starts this much later than this tracer.
+    pub start_offset_ns: u64,
+}
+
 /// Shape of the synthetic rounds of a run (C05 / C10 / C15 "synthetic round sequences").
 #[derive(Debug, Clone, Copy, PartialEq, Eq)]
 pub struct SynthCfg {
@@ -322,6 +334,15 @@ pub struct Scenario {
     /// Synthetic round source: the rounds are drawn from the tape and applied to the real
     /// tracer state through its round handler; the strategy and the network do not run.
     pub synth: Option<SynthCfg>,
+    /// A second real tracer shares the network: it is run first, over the same simulated
+    /// network, and every datagram its receive socket was handed is delivered to this
+    /// tracer's receive socket as well (a raw socket sees all ICMP of the host).
+    pub neighbour: Option<NeighbourCfg>,
+    /// Keep the bytes of every datagram handed to the receive socket (neighbour recording).
+    pub record_rx: bool,
+    /// The network is quiet and lossless and rounds are long: the results with the neighbour
+    /// must equal, hop by hop up to the path length, those of the same run without it.
+    pub alone_equal: bool,
 }
 
 fn layout_json(l: &ErrorLayout) -> Value {
@@ -400,6 +421,7 @@ impl Scenario {
             "stable": self.stable,
             "mutation": self.mutation.map(|m| format!("{m:?}")),
             "synthetic_rounds": self.synth.map(|m| format!("{m:?}")),
+            "neighbour_tracer": self.neighbour.map(|m| format!("{m:?}")),
         })
     }
 }
@@ -410,6 +432,16 @@ pub fn default_source(v6: bool) -> IpAddr {
         IpAddr::V6(Ipv6Addr::new(0x2001, 0xdb8, 1, 0, 0, 0, 0, 1))
     } else {
         IpAddr::V4(Ipv4Addr::new(192, 0, 2, 1))
+    }
+}
+
+/// The target of a neighbouring tracer that traces somewhere else.
+#[must_use]
+pub fn other_target(v6: bool) -> IpAddr {
+    if v6 {
+        IpAddr::V6(Ipv6Addr::new(0x2001, 0xdb8, 0xffff, 0, 0, 0, 0, 0x9a))
+    } else {
+        IpAddr::V4(Ipv4Addr::new(203, 0, 113, 100))
     }
 }
 
